@@ -192,7 +192,9 @@ pub fn claim_port() -> u16 {
     for _ in 0..4000 {
         let k = NEXT.fetch_add(1, Ordering::SeqCst);
         let port = 10100 + ((pid.wrapping_mul(131).wrapping_add(k.wrapping_mul(7))) % 19900) as u16;
-        let path = std::env::temp_dir().join(format!("sozu-verif-port-{port}.lock"));
+        let dir = std::env::temp_dir().join("sozu-verif-ports");
+        let _ = std::fs::create_dir_all(&dir);
+        let path = dir.join(format!("{port}.lock"));
         let Ok(f) = std::fs::OpenOptions::new().create(true).write(true).open(&path) else { continue };
         if unsafe { libc::flock(f.as_raw_fd(), libc::LOCK_EX | libc::LOCK_NB) } != 0 {
             continue;
